@@ -61,19 +61,27 @@ class NffTable:
         """(value | nan, scale): the linear interpolation of the tabulated values at e keV,
         in exact arithmetic; NaN outside the range or next to a -9999 marker.
         scale = size of the node values involved (for cancellation-aware comparison)."""
+        return self.expected_both(e)[col - 1]
+
+    def expected_both(self, e: float):
+        """((f1, scale1), (f2, scale2)) at e keV"""
         j = self.bracket(e)
         if j is None:
-            return math.nan, 0.0
-        y0 = self.rows[j][col]
+            return (math.nan, 0.0), (math.nan, 0.0)
+        r0 = self.rows[j]
         if e == self.kev[j]:
-            return (math.nan if y0 == -9999 else float(y0)), abs(float(y0))
-        y1 = self.rows[j + 1][col]
-        if y0 == -9999 or y1 == -9999:
-            return math.nan, 0.0
-        x0, x1 = self.rows[j][0] / 1000, self.rows[j + 1][0] / 1000
-        x = Fraction(e)
-        v = y0 + (y1 - y0) * (x - x0) / (x1 - x0)
-        return float(v), max(abs(float(y0)), abs(float(y1)))
+            return tuple(((math.nan if r0[c] == -9999 else float(r0[c])), abs(float(r0[c]))) for c in (1, 2))
+        r1 = self.rows[j + 1]
+        x0, x1 = r0[0] / 1000, r1[0] / 1000
+        t = (Fraction(e) - x0) / (x1 - x0)
+        out = []
+        for c in (1, 2):
+            y0, y1 = r0[c], r1[c]
+            if y0 == -9999 or y1 == -9999:
+                out.append((math.nan, 0.0))
+            else:
+                out.append((float(y0 + (y1 - y0) * t), max(abs(float(y0)), abs(float(y1)))))
+        return tuple(out)
 
 
 def read_nff_tables():
